@@ -144,12 +144,12 @@ META.update({
         note="bounded stand-in only",
     ),
     "C15": dict(
-        technique="contract-based deductive verification of the field mergers (Merger.__call__, UseFirst/UseLast/Forbid/ForbidChange/Concat/Unite/DictMerge._merge; AST->VC, z3+cvc5); " + _B + " for mirrored sessions",
+        technique="contract-based deductive verification of the field mergers (Merger.__call__, UseFirst/UseLast/Forbid/ForbidChange/Concat/Unite/DictMerge._merge) and of MeshRulesRegistry.lookup_direct with the lemma 'both ends see the same pairs' (AST->VC, z3+cvc5); " + _B + " for mirrored sessions",
         text="exploration + proved links: every merger class is proved against its law (unset never overrides set; ForbidChange returns x iff x == y "
              "else raises; Concat = x + y; Unite = x | y; DictMerge key-wise with the value merger, x unmodified), plus commutativity/"
              "associativity lemmas. Bounded: mirrored peers/AS/families/interfaces for 30-34 topologies x rule templates x handler specs, all registration orders; "
              "merge laws per declared merger on seeded model instances (order independence, associativity, unset never overrides).",
-        note="registry lookup, executor and to_bgp_peer are bounded only",
+        note="lookup_indirect, executor and to_bgp_peer are bounded only",
     ),
     "C19": dict(
         technique="contract-based deductive verification of RunGeneratorResult.add_entire / new_files (AST->VC, z3) + induction lemmas (fold of add_entire dominates every listed result); " + _B + " for upload/reload/diff",
